@@ -816,25 +816,28 @@ func runCancelScenario(sc cancelScenario, rng *hx.Rand) cancelOutcome {
 		returned = true
 	case <-time.After(grace):
 	}
-	out.RunningAtReturn = tr.running(cancelledPass)
+	// Everything below is stated on facts sampled here, never on "it should have happened by
+	// now": a slow machine can make a check miss a violation, it cannot produce one.
+	//  - node functions of the pass that are blocked on the gate stay "running" until the
+	//    gate opens, so two equal non-zero samples around another observation bracket it.
+	r1 := tr.running(cancelledPass)
 	out.StatusAtCheck = g.IsStabilizing()
+	r2 := tr.running(cancelledPass)
+	out.RunningAtReturn = r2
 	startedAtCheck := tr.startedBy(cancelledPass)
-	if returned {
-		if out.RunningAtReturn > 0 {
-			out.ReturnedEarly = true
-			problem("%s returned (%v) while %d node function(s) of that pass were still running; IsStabilizing()=%v right after",
-				sc.Kind, callErr, out.RunningAtReturn, out.StatusAtCheck)
-		} else if out.StatusAtCheck {
-			problem("%s returned (%v) but IsStabilizing() is still true", sc.Kind, callErr)
-		}
-	} else {
-		if sc.Gated == "none" {
-			problem("cancelled %s did not return within 10s", sc.Kind)
-			return out
-		}
-		if !out.StatusAtCheck {
-			problem("IsStabilizing() is false while %s has not returned (%d of its node functions running)", sc.Kind, out.RunningAtReturn)
-		}
+	if returned && r1 > 0 {
+		out.ReturnedEarly = true
+		problem("%s returned (%v) while %d node function(s) of that pass were still running", sc.Kind, callErr, r1)
+	}
+	if r1 > 0 && r2 > 0 && !out.StatusAtCheck {
+		problem("IsStabilizing() is false while %d node function(s) of the cancelled pass are running", r2)
+	}
+	if returned && r1 == 0 && r2 == 0 && out.StatusAtCheck {
+		problem("%s returned (%v) but IsStabilizing() is still true", sc.Kind, callErr)
+	}
+	if !returned && sc.Gated == "none" {
+		problem("cancelled %s did not return within 10s", sc.Kind)
+		return out
 	}
 	// a Stabilize issued right now: turned away, or let in -- then it must not overlap
 	if returned {
@@ -844,6 +847,7 @@ func runCancelScenario(sc cancelScenario, rng *hx.Rand) cancelOutcome {
 	}
 	followCtx := context.WithValue(context.Background(), passKey{}, followUpPass)
 	followDone := make(chan error, 1)
+	rBefore := tr.running(cancelledPass)
 	go func() { followDone <- g.Stabilize(followCtx) }()
 	var followErr error
 	followReturned := false
@@ -852,19 +856,23 @@ func runCancelScenario(sc cancelScenario, rng *hx.Rand) cancelOutcome {
 		followReturned = true
 	case <-time.After(60 * time.Millisecond):
 	}
+	rAfter := tr.running(cancelledPass)
 	switch {
 	case followReturned && errors.Is(followErr, incr.ErrAlreadyStabilizing):
 		out.FollowUp = "ErrAlreadyStabilizing"
-		if returned && out.RunningAtReturn == 0 {
+		if returned && r1 == 0 && r2 == 0 {
 			problem("Stabilize after the cancelled pass had returned got ErrAlreadyStabilizing")
 		}
 	case followReturned:
 		out.FollowUp = fmt.Sprintf("returned %v", followErr)
+		if rBefore > 0 && rAfter > 0 {
+			problem("a Stabilize issued while %d node function(s) of the cancelled %s were running was let in (it returned %v, not ErrAlreadyStabilizing)", rAfter, sc.Kind, followErr)
+		}
 	default:
 		out.FollowUp = "let in (blocked at the gate)"
-	}
-	if !returned && out.FollowUp != "ErrAlreadyStabilizing" {
-		problem("Stabilize issued while the cancelled %s had not returned was not turned away: %s", sc.Kind, out.FollowUp)
+		if rBefore > 0 && rAfter > 0 && tr.running(followUpPass) > 0 {
+			problem("a Stabilize issued while %d node function(s) of the cancelled %s were running was let in and is running node functions itself", rAfter, sc.Kind)
+		}
 	}
 	// open the gates, let everything finish
 	close(gate)
